@@ -1706,7 +1706,12 @@ fn root_main(w: Arc<World>) {
                     } else {
                         sched.set_max_threads(*n as usize);
                     }
-                    w.with(|i| i.cur_max = *n as usize);
+                    w.with(|i| {
+                        i.cur_max = *n as usize;
+                        if *n == 0 {
+                            i.pool_zero = true;
+                        }
+                    });
                 }
                 RootAct::SpawnThread => {
                     // deliberately exceeds the maximum (documented): the oracle allows for it
